@@ -69,8 +69,8 @@ class C06(Prop):
         "C06.override_true_eq_call_true", "C06.set_filter_is_filter", "C06.spec_filter_fallback",
         "C06.empty_set_fallback", "C06.installed_uses_base", "C06.installed_final",
         "C06.history_last_write_wins", "C06.lastWrite_eq", "C06.calls_do_not_write", "C06.history_observations",
-        "SS.contains_eq_admits", "SS.contains_installed", "SS.filterChain_ok", "SS.spec_filter_some",
-        "SS.spec_filter_none", "SS.preOk",
+        "SSet.contains_eq_admits", "SSet.contains_installed", "SSet.filterChain_ok", "SSet.spec_filter_some",
+        "SSet.spec_filter_none", "SSet.preOk",
     ]
     rule = ("per sampled case: a specifier / a set of 0-4 clauses (string-built or from Specifier objects with their own "
             "overrides) x a candidate list of 0-8 spelled versions (mixed str/Version objects, shuffled, with and without "
